@@ -789,6 +789,9 @@ func runStorePath(g *sGraph, init *sNode, kind string, ops []sOp, dir string, re
 						return mk(kind+"/"+op.Op+"/library-rejects", fmt.Sprintf("step %d %s: %s", i, op, m), i)
 					}
 					rep.count("finalized_files_checked", 1)
+					if m := checkFlattenVsRegenerate(&n.S, p.Bytes); m != "" {
+						return mk(kind+"/"+op.Op+"/flatten-vs-regenerate", fmt.Sprintf("step %d %s: %s", i, op, m), i)
+					}
 				}
 				break
 			}
